@@ -627,6 +627,7 @@ int main(int argc, char** argv)
     cross_tests<vm_abi_wasm32>(rng);
     cross_tests<vm_abi_lp16>(rng);
     cross_tests<vm_abi_ilp64>(rng);
+    cross_tests<vm_abi_uword>(rng);
   } else {
     return 2;
   }
